@@ -205,7 +205,7 @@ theorem repo_not_correct_nil_leaf_ptr :
 /-- Known finding `negative-index`: `L.-1` reaches `s[-1]`. -/
 theorem repo_not_correct_negative_index :
     setAccepts exNode exVal [seg "L", seg "-1" (some (-1))] five
-      (setM GenCfg.repo exNode .ptr exVal [seg "L", seg "-1" (some (-1))] five true) = false := by
+      (setM GenCfg.original exNode .ptr exVal [seg "L", seg "-1" (some (-1))] five true) = false := by
   decide
 
 /-- … while the repaired model is accepted on each of them (instances of `set_correct`). -/
